@@ -721,11 +721,19 @@ func runC20(r *mon.Run) {
 
 // freshAccessors builds one set of fresh key / point / scalar objects and returns every accessor and
 // deterministic operation on them (phase 1b of C20; the first-use monitor of C18).
+const nCheapAccessors = 24 // the accessors proper come first, the expensive operations after them
+
 func freshAccessors(seed int64, round int, batch int) []func() []byte {
 	dv, _ := keyValue(gen.New(seed, round, "C20", "fresh-key", strconv.Itoa(batch)))
+	// (every accessor's FIRST call must be the first use of its object: the key the Schnorr key is
+	// derived from and the twins of the comparisons are objects of their own)
 	priv := mustPriv(dv)
+	privTwin := mustPriv(dv)
 	pub, _ := secec.NewPublicKey(oracle.EncodeUncompressed(oracle.MulG(dv)))
-	spriv := bitcoin.NewSchnorrPrivateKeyFromECDSA(priv)
+	pubTwin, _ := secec.NewPublicKey(oracle.EncodeCompressed(oracle.MulG(dv)))
+	spriv := bitcoin.NewSchnorrPrivateKeyFromECDSA(mustPriv(dv))
+	sprivTwin, _ := bitcoin.NewSchnorrPrivateKey(b32(dv))
+	spubTwin, _ := bitcoin.NewSchnorrPublicKey(b32(oracle.MulG(dv).X))
 	spub, _ := bitcoin.NewSchnorrPublicKey(b32(oracle.MulG(dv).X))
 	pt := pointRep(oracle.MulG(new(big.Int).Add(dv, big.NewInt(1))), big.NewInt(int64(3+round)))
 	if pt == nil {
@@ -753,6 +761,19 @@ func freshAccessors(seed int64, round int, batch int) []func() []byte {
 		func() []byte { return []byte{byte(pt.IsYOdd()), byte(pt.IsIdentity())} },
 		func() []byte { return sc.Bytes() },
 		func() []byte { return []byte{byte(sc.IsGreaterThanHalfN()), byte(sc.IsZero())} },
+		func() []byte { return []byte{byte(boolU64(pubTwin.Equal(pub))), byte(boolU64(pub.Equal(pubTwin)))} },
+		func() []byte { return []byte{byte(boolU64(privTwin.Equal(priv))), byte(boolU64(priv.Equal(privTwin)))} },
+		func() []byte {
+			return []byte{byte(boolU64(spubTwin.Equal(spub))), byte(boolU64(sprivTwin.Equal(spriv))), byte(boolU64(spriv.PublicKey().Equal(sprivTwin.PublicKey())))}
+		},
+		func() []byte {
+			if pk, ok := privTwin.Public().(*secec.PublicKey); ok {
+				return pk.Bytes()
+			}
+			return nil
+		},
+		func() []byte { return sprivTwin.PublicKey().Point().CompressedBytes() },
+		func() []byte { return privTwin.PublicKey().ASN1Bytes() },
 		func() []byte { sh, _ := priv.ECDH(pub); return sh },
 		func() []byte { sig, _ := priv.Sign(secec.RFC6979SHA256(), dig, nil); return sig },
 		func() []byte { sig, _ := spriv.Sign(&fixedReader{data: dig}, dig, nil); return sig },
